@@ -20,11 +20,14 @@ type Clause struct {
 	Props []string
 	Line  int
 	Thorough bool // only checked in the thorough tier (expensive obligations)
+	After    string // keep clauses: active only at joins after this call ("callee#n")
+	Before   string // keep clauses: active only at joins before this call
 }
 
 type LoopSpec struct {
 	Invariants []Clause
 	Decreases  []Clause
+	Modifies   []Clause
 	Unroll     int // bounded mode: unroll this many times (0 = use invariant)
 }
 
@@ -41,6 +44,7 @@ type Contract struct {
 	Props    []string
 	Requires []Clause
 	Ensures  []Clause
+	Keeps    []Clause // join invariants: asserted and assumed at every control-flow join and loop head
 	Modifies []Clause // location expressions
 	ModAll   bool     // `modifies *` (no frame check, callers havoc nothing extra: only for trusted externs)
 	Loops    map[int]*LoopSpec
@@ -105,7 +109,7 @@ func pureKey(pkg *types.Package, name string) string {
 	return pkg.Name() + "." + name
 }
 
-var clauseKW = map[string]bool{"props": true, "requires": true, "ensures": true, "modifies": true, "loop": true,
+var clauseKW = map[string]bool{"keep": true, "props": true, "requires": true, "ensures": true, "modifies": true, "loop": true,
 	"bitvector": true, "trusted": true, "at": true, "bounded": true, "inline": true, "noinline": true, "logs": true,
 	"hyp": true, "goal": true, "vars": true, "solver": true, "flag": true}
 
@@ -442,6 +446,22 @@ func (prog *Program) LoadContracts(file string, pkg *types.Package, extern bool)
 						}
 						c.Sizes = append(c.Sizes, cl)
 					}
+				case "keep":
+					var after, before string
+					if m := regexp.MustCompile(`^(after|before)\s+([\w.$]+#\d+)\s+`).FindStringSubmatch(rest); m != nil {
+						if m[1] == "after" {
+							after = m[2]
+						} else {
+							before = m[2]
+						}
+						rest = rest[len(m[0]):]
+					}
+					cl, err := parseClause(rest, l.line)
+					cl.After, cl.Before = after, before
+					if err != nil {
+						return fmt.Errorf("%s: %v", file, err)
+					}
+					c.Keeps = append(c.Keeps, cl)
 				case "requires", "ensures":
 					cl, err := parseClause(rest, l.line)
 					if err != nil {
@@ -493,6 +513,14 @@ func (prog *Program) LoadContracts(file string, pkg *types.Package, extern bool)
 							return fmt.Errorf("%s: %v", file, err)
 						}
 						ls.Decreases = append(ls.Decreases, cl)
+					case "modifies":
+						for _, part := range splitTopLevel(body) {
+							cl, err := parseClause(part, l.line)
+							if err != nil {
+								return fmt.Errorf("%s: %v", file, err)
+							}
+							ls.Modifies = append(ls.Modifies, cl)
+						}
 					case "unroll":
 						k, err := strconv.Atoi(body)
 						if err != nil {
